@@ -269,6 +269,42 @@ def twins(fl: List[int], blob: bytes) -> bool:
     return wire == exp and top.dump() == r_top and m.get_length() == len(exp) and len(top.avps) == 3 and len(m.avps) == 3
 
 
+def derived(fl: List[int], blob: bytes, hbh: int) -> bool:
+    """
+    pre: len(fl) == 2 and all(0 <= f <= 127 for f in fl) and len(blob) == 2 * P["L"] and 0 <= hbh < 2**32
+    post: _
+    """
+    # messages obtained through the other public constructors: DiameterMessage.convert() of a generic and of a typed message,
+    # .copy(), DiameterAVP.convert(): each must serialise to the RFC 6733 encoding of the same content, and the source
+    # object must still do so afterwards
+    L = P["L"]
+    d0, d1 = blob[:L], blob[L:]
+    a0, a1 = DiameterAVP(code=888, flags=fl[0], data=d0), DiameterAVP(code=889, vendor_id=10415, flags=128 + fl[1], data=d1)
+    r0, r1 = ref_avp(888, fl[0], None, d0), ref_avp(889, 128 + fl[1], 10415, d1)
+    src = DiameterMessage(DiameterHeader(command_code=280, hop_by_hop=hbh), [a0, a1])
+    exp = ref_msg(1, 0, 280, 0, hbh, 0, [r0, r1])
+    kind = P["kind"]
+    if kind == "convert":
+        out = DiameterMessage.convert(src)
+    elif kind == "copy":
+        out = src.copy()
+    elif kind == "convert_request":
+        src = DiameterRequest(header=DiameterHeader(command_code=280, hop_by_hop=hbh, flags=0x80), avps=[a0, a1])
+        # (which command flags the request constructor derives from the Application-ID is the `ctor` query's business)
+        exp = ref_msg(1, src.header.get_flags(), 280, 0, hbh, 0, [r0, r1])
+        out = DiameterMessage.convert(src)
+    else:
+        g = DiameterAVP.convert(OriginHostAVP(d0)) if L else DiameterAVP.convert(a0)
+        rg = ref_avp(264, 0x40, None, d0) if L else r0
+        reached()
+        return g.dump() == rg and type(g) is DiameterAVP
+    wire = out.dump()
+    reached()
+    if REPLAY: note(kind=kind, observed=wire.hex(), expected=exp.hex(), source_after=src.dump().hex())
+    return (wire == exp and out.get_length() == len(exp) and src.dump() == exp and src.get_length() == len(exp)
+            and type(out) is (DiameterMessage if kind != "copy" else type(src)))
+
+
 def identity_sweep():
     """native (concrete) sweep: every dictionary class instantiated with one in-domain value dumps the
     reference encoding for its frozen (code, vendor, flags).  Table comparison, not a solver query."""
@@ -350,13 +386,17 @@ def queries(tier, seed):
     for L in ((1, 4) if tier == "quick" else (0, 1, 2, 3, 4, 5)):
         qs.append(Q(f"twins/L{L}", "twins", {"L": L}, cto=t, pto=t,
                     what=f"six same-code generic AVPs ({L} data bytes each, flags and data symbolic, so equal siblings arise) at message level, in a Grouped AVP and in a nested one"))
+    for kind in ("convert", "copy", "convert_request", "avp_convert"):
+        for L in ((3,) if tier == "quick" else (0, 1, 3, 4)):
+            qs.append(Q(f"derived/{kind}/L{L}", "derived", {"kind": kind, "L": L}, cto=t, pto=t,
+                        what=f"message obtained by {kind} of a message of two generic AVPs ({L} data bytes, flags/data/Hop-by-Hop symbolic): encoding and Message Length of result AND source"))
     qs.append(Q("native/identity_sweep", "identity_sweep", engine="py", cto=60, what="all classes: concrete value vs frozen dictionary"))
     return qs
 
 
 BOUNDS = ["header: every value of every field (ints; bytes of the right width)", "generic AVP: every code/flags/vendor, data length 0..5 (quick) / 0..9",
           "messages of <= 3 generic AVPs, (code, vendor) concrete per position, every data residue", "dictionary classes: quick = all Grouped + "
-          "custom-logic classes + one per (type, vendor-ness); thorough = all classes x length residues", "nesting depth 3 (quick) / 4", "same-code siblings with free flags/data (equal siblings included) at three levels"]
+          "custom-logic classes + one per (type, vendor-ness); thorough = all classes x length residues", "nesting depth 3 (quick) / 4", "same-code siblings with free flags/data (equal siblings included) at three levels", "messages derived by convert() / copy() / DiameterAVP.convert()"]
 OUTSIDE = ["messages >= 2^24 bytes", "non-ASCII str data (UTF-8 encoder is CPython's)", "DiameterURI values beyond the fixed list",
            "generic AVPs whose V flag disagrees with vendor presence (excluded by the statement)", "typed command classes: see C09 (same oracle)"]
 ASSUMPTIONS = ["reference encoder vf.h.ref_avp/ref_msg transcribes RFC 6733 sections 3 and 4.1", "default flags/code/vendor per class from /verif/ref/avp_dictionary.json"]
